@@ -335,6 +335,12 @@ def run_C03(run):
 VAL_EXPR = consts(BASE_EXPR, UseCat=False, UseVal=True)
 
 
+def float_stage(run, fam):
+    r, st = run.gen_and_replay("MC_Float", {"Family": fam}, name="float-" + fam, kind="f64")
+    if st["cases"] < 1000:
+        raise ToolingError("MC_Float %s produced only %d cases: vacuous" % (fam, st["cases"]))
+
+
 def run_C07(run):
     q = run.tier == "quick"
     run.gen_and_replay("MC_Expr", consts(VAL_EXPR, Family="C07cmp"), name="cmp-matrix", kind="eval")
@@ -342,6 +348,10 @@ def run_C07(run):
     run.gen_and_replay("MC_Expr", consts(VAL_EXPR, Family="C07pred"), name="cmp-as-predicate", kind="sel-set")
     tr = run.drive("values-bool", 2500 if q else 40000, extra=["-nodes", "12"])
     run.validate_batch(tr, "cmp-flowB")
+    # exact binary64 model (XFloat.tla, no magnitude bound): the six comparisons between numbers and between a
+    # node-set and a number over values that are not small dyadic rationals (0.1 + 0.2 against '0.3', 2^53 + 1,
+    # 19- and 20-digit integers); the reply is compared bit for bit
+    float_stage(run, "cmp")
 
 
 def run_C08(run):
@@ -351,6 +361,10 @@ def run_C08(run):
     # depth 3-4 by seeded generation (Flow B)
     tr = run.drive("values-num", 3000 if q else 50000, extra=["-nodes", "12"])
     run.validate_batch(tr, "arith-flowB")
+    # exact binary64 model (XFloat.tla): correctly rounded literals and document values, + - * div mod, floor,
+    # ceiling, number(), sum(), string() of a number as the shortest decimal that reads back; bit-for-bit
+    for fam in ("arith1", "fn", "str") + (() if q else ("arith2",)):
+        float_stage(run, fam)
 
 
 def run_C09(run):
